@@ -59,7 +59,7 @@ func isPureSimple(fn *ssa.Function, depth int, seen map[*ssa.Function]bool) bool
 			case *ssa.Call:
 				if b, ok := in.Call.Value.(*ssa.Builtin); ok {
 					switch b.Name() {
-					case "len", "cap", "min", "max":
+					case "len", "cap", "min", "max", "ssa:deferstack":
 						continue
 					}
 					return false
